@@ -105,8 +105,34 @@ Definition c11_monitor (ops : list (op * op_obs)) : Z :=
   let evs := flat_map (fun oo => oo_events (snd oo)) ops in
   if forallb (fun i => Nat.leb (List.length (filter (is_exec_of i) evs)) 1) ids then 0 else 68.
 
+(* ---------- C17 on resolver histories: the raw outputs of a successful call are
+   what the target's body returned (in this operation, or earlier when the
+   target is a memoized run-once function) ---------- *)
+Definition raw_of_event (f : fdecl) (outs : list value) : Z * list (list Z) :=
+  match fn_out f with
+  | [] => (0, [])
+  | _ => match fn_out_form f with
+         | FPos => (Z.of_nat (List.length outs), map (fun v => [v_id v]) outs)
+         | FStruct => (1, [map v_id outs])
+         | FPtr => (1, [(-77) :: map v_id outs])
+         end
+  end.
+Definition last_exec_outs (fid : Z) (evs : list event) : option (list value) :=
+  fold_left (fun acc e => match e with EExec g _ outs None => if g =? fid then Some outs else acc | _ => acc end) evs None.
+Definition c17_monitor (earlier : list event) (o : op) (ob : op_obs) : Z :=
+  match o, oo_obs ob with
+  | OpCall f _ _, ObsCall ObsOk len outs =>
+      match last_exec_outs (fn_id f) (earlier ++ oo_events ob) with
+      | Some vs => let (l, os) := raw_of_event f vs in
+                   if (l =? len) && Base.eqb os outs then 0 else 70
+      | None => 0
+      end
+  | _, _ => 0
+  end.
+
 (* ---------- per-history monitors ---------- *)
-Fixpoint monitor2_ops (which : Z) (u : universe) (all : list (op * op_obs)) (ops : list (op * op_obs)) (i : Z) : Z :=
+Fixpoint monitor2_ops (which : Z) (u : universe) (all : list (op * op_obs)) (earlier : list event)
+         (ops : list (op * op_obs)) (i : Z) : Z :=
   match ops with
   | [] => 0
   | (o, ob) :: rest =>
@@ -114,13 +140,14 @@ Fixpoint monitor2_ops (which : Z) (u : universe) (all : list (op * op_obs)) (ops
                | 7 => match o with OpCall f d opts => c07_monitor u f d opts ob | _ => 0 end
                | 8 => c08_monitor u all o ob
                | 9 => c09_monitor o ob
+               | 17 => c17_monitor earlier o ob
                | _ => 0
                end in
-      if c =? 0 then monitor2_ops which u all rest (i + 1) else 100 * (i + 1) + c
+      if c =? 0 then monitor2_ops which u all (earlier ++ oo_events ob) rest (i + 1) else 100 * (i + 1) + c
   end.
 
 Definition check_prop2 (m : cmp_mode) (which : Z) (s : scn) : Z :=
-  let mc := if which =? 11 then c11_monitor (sc_ops s) else monitor2_ops which (sc_u s) (sc_ops s) (sc_ops s) 0 in
+  let mc := if which =? 11 then c11_monitor (sc_ops s) else monitor2_ops which (sc_u s) (sc_ops s) [] (sc_ops s) 0 in
   if negb (mc =? 0) then mc else check_scn m s.
 Definition run_prop2 (m : cmp_mode) (which : Z) := run_checks_r (check_prop2 m which).
 
